@@ -8,6 +8,7 @@ CONSTANTS
   AssignImpl = "fixed"
   WM = 12
   ConstructSlots <- Only1
+  Unbounded = FALSE
   Ops <- ConvOps
   EmitAll = TRUE
 VIEW View
